@@ -22,6 +22,10 @@ def src_of(pid, n):
     return (d if os.path.exists(d) else f"{MUT}/{pid}/out"), n
 
 
+ENV = dict(os.environ, CARGO_NET_OFFLINE="true")
+KNOWN_BAD = {"basic_osu", "rng_mania_hitresults"}
+
+
 def sh(cmd, cwd, timeout=3600):
     p = subprocess.run(cmd, cwd=cwd, env=ENV, shell=True, stdout=subprocess.PIPE, stderr=subprocess.STDOUT, text=True, timeout=timeout)
     return p.returncode, p.stdout
